@@ -57,6 +57,8 @@ def mon_c01(script, res):
     cur = [0] * n
     prev = None
     for e in _effects(res):
+        if e[0] == 'life':         # the daemon was restarted in process: every process object is new (STOPPED)
+            cur = [0] * n
         if e[0] == 'state':
             _, who, frm, to, x, exp = e
             if who < 0 or who >= n:
@@ -161,6 +163,8 @@ def mon_c02(script, res):
     # a second child is never forked for a process that still has one
     alive = {}
     for e in res['trace']:
+        if e[0] == 'life':       # restarted in process: new process objects; a child whose signalling failed may survive
+            alive = {}
         if e[0] == 'fork':
             if alive.get(e[1]):
                 return 'p%d forked pid %d while its child %d was not yet reaped' % (e[1], e[2], alive[e[1]])
@@ -256,6 +260,9 @@ def mon_c05(script, res):
 def mon_c06(script, res):
     if res['ended'] == 'crash':
         return 'exception escaped the main loop: %s' % (res.get('crash') or '')[-600:]
+    if res.get('stale_pools'):
+        return ('after the restart %d subscription(s) of event-listener pools of the previous daemon life are still in place: '
+                'those pools keep accepting every event' % res['stale_pools'])
     if res.get('hangs'):
         return ('the main loop called %s on descriptor %d, which is in blocking mode, when the call could not complete: '
                 'the real daemon would stop servicing every process' % res['hangs'][0])
@@ -827,6 +834,17 @@ def hostile_script(rng, logdir):
             op['faults'][name] = [rng.choice([0, errno.EINTR, errno.EAGAIN, errno.EBADF, errno.EIO, errno.ENOMEM,
                                                errno.ECHILD, errno.EPERM, errno.EPIPE]) for _ in range(rng.randrange(1, 4))]
     t = s['ops'][-1]['now']
+    if rng.random() < 0.2:
+        # a restart request (SIGHUP) in the middle: when the first life has stopped everything the driver goes on
+        # like supervisord.main(): new options, new Supervisor, the real Supervisor.run()
+        s['second_life'] = True
+        k = rng.randrange(1, max(2, len(s['ops']) // 2))
+        s['ops'][k]['acts'] = list(s['ops'][k]['acts']) + [['signal', 1]]
+        for j in range(6):
+            t += 2
+            s['ops'].append({'now': t, 'acts': [], 'killq': []})
+        t += 2
+        s['ops'].append({'now': t, 'acts': [['remote', 9900, 't', 'after the restart']] if 'pools' in s else []})
     s['ops'] += [{'now': t + 2, 'acts': [['exit', 0, 3]]}, {'now': t + 4, 'acts': []}, {'now': t + 8, 'acts': []},
                  {'now': t + 10, 'acts': []}]
     return s
